@@ -50,5 +50,21 @@ def qBIHF (k : Kernel) : List Nat :=
 def qBIF (k : Kernel) : List Nat := if k.fBU then k.liveFaces.filter k.qBoundaryF else []
 def qBIC (k : Kernel) : List Nat := k.liveCells.filter k.qBoundaryC
 
+/-! the remaining circulator lists (top-down: no cache needed) -/
+def qHFHE (k : Kernel) (hf : Nat) : List Nat := k.hfHes hf
+def qHFV (k : Kernel) (hf : Nat) : List Nat := (k.hfHes hf).map k.fromV
+def qHFE (k : Kernel) (hf : Nat) : List Nat := (k.hfHes hf).map eOf
+def qFHE (k : Kernel) (f : Nat) : List Nat := k.faceAt f
+def qFV (k : Kernel) (f : Nat) : List Nat := k.qHFV (heOf f 0)
+def qFE (k : Kernel) (f : Nat) : List Nat := (k.faceAt f).map eOf
+def qCHF (k : Kernel) (c : Nat) : List Nat := k.cellAt c
+def qCF (k : Kernel) (c : Nat) : List Nat := (k.cellAt c).map eOf
+def qCHE (k : Kernel) (c : Nat) : List Nat := (k.cellAt c).flatMap k.hfHes
+def qCE (k : Kernel) (c : Nat) : List Nat := sortUniq ((k.qCHE c).map eOf)
+def qCV (k : Kernel) (c : Nat) : List Nat := sortUniq ((k.cellAt c).flatMap (fun hf => k.qFV (eOf hf)))
+/-- BoundaryHalfFaceHalfFaceIter: boundary halffaces around the opposite halfedges -/
+def qBHFHF (k : Kernel) (hf : Nat) : List Nat :=
+  if k.fBU then (k.hfHes hf).flatMap (fun he => (k.qHEHF (opp he)).filter k.qBoundaryHF) else []
+
 end Kernel
 end OVM
